@@ -106,6 +106,7 @@ class _Sim:
         self.ev: List[Dict[str, Any]] = []
         self.corr = 100 * (rank + 1)
         self.last_end: Dict[int, int] = {}      # per stream: end of last placed activity
+        self.last_start: Dict[int, int] = {}
         self.launched: Dict[int, List[int]] = {}  # per stream: ends of activities launched so far
         self.t0 = t0
         self.ext = 0
@@ -146,10 +147,11 @@ class _Sim:
         start_lb = max(t + rng.choice(cfg.kdelay), self.wait_until.get(stream, 0))
         if stream in self.last_end:
             start = max(start_lb, self.last_end[stream] + rng.choice(cfg.kgap))
-            if kdur == 0 and not cfg.zero_len_same_start_ok:
-                pass
+            if not cfg.zero_len_same_start_ok and start <= self.last_start.get(stream, -1):
+                start = self.last_start[stream] + 1     # strict FIFO: no two activities of a stream share a start instant
         else:
             start = start_lb
+        self.last_start[stream] = start
         if is_mem:
             if rng.random() < 0.3:
                 call, cat, kname = "cudaMemsetAsync", "gpu_memset", "Memset (Device)"
@@ -385,6 +387,9 @@ def gen_rank(rng: random.Random, cfg: GenCfg, rank: int) -> RankTrace:
     for _ in range(cfg.unlinked_head):
         s = rng.choice(cfg.streams)
         st = max(tt, sim.last_end.get(s, 0) + rng.choice(cfg.kgap))
+        if not cfg.zero_len_same_start_ok and st <= sim.last_start.get(s, -1):
+            st = sim.last_start[s] + 1
+        sim.last_start[s] = st
         d = rng.choice(cfg.kdur)
         sim.dev("kernel", rng.choice(K_COMP), s, st, d, sim.next_corr(), queued=0)
         sim.last_end[s] = st + d
